@@ -364,6 +364,8 @@ class Node(ModelElement):
 
         node_id = self.topo.graph_model.find_ns_by_name(parent_node_id=self.node_id,
                                                         nsname=name)
+        # disconnect its interfaces from the services they are connected to first
+        self.topo._disconnect_from_services(self.network_services[name].interface_list)
         self.topo.graph_model.remove_ns_with_cps_and_links(node_id=node_id)
 
     def remove_storage(self, name: str) -> None:
